@@ -17,6 +17,8 @@ def run(rep, tier):
     kernels.run_generators(rep, ["apply_operator_vector", "apply_operator_matrix", "reorder_vector", "reorder_matrix"])
     from vf.pyvc import tensors
     tensors.run_tensor_contracts(rep, ["C03"])
+    from vf.pyvc import kronexec
+    kronexec.run_combine(rep)
     cells = opcells.multi_target_cells(tier, common.seed())
     rep.bounds.update({"cells": len(cells), "operands": "every ordered duplicate-free choice among e0/e1(/e2) polarizations, Fock pairs, custom state",
                        "structures": "vf/rtc/layouts.py STRUCTS, STRUCTS3", "max_members_per_product_space": 4})
